@@ -4,7 +4,7 @@ SPEC = {
     "lean_modules": ["PallasVerif.Props.C04"],
     "required_theorems": [
         "positiveCoin_decoded_nonzero", "nonZeroInt_decoded_nonzero", "decoded_satisfies_checked_constructor",
-        "zero_encodings_rejected", "value_quantities_nonzero", "mint_quantities_nonzero", "donation_nonzero", "positiveCoin_accepts_only_uint_heads", "nonZeroInt_accepts_only_int_heads",
+        "zero_encodings_rejected", "nonzero_encodings_accepted", "value_quantities_nonzero", "mint_quantities_nonzero", "donation_nonzero", "positiveCoin_accepts_only_uint_heads", "nonZeroInt_accepts_only_int_heads",
     ],
     "streams": [{"name": "numwrap", "quick": 1500, "thorough": 150000}],
     "rule": "1..4 ops per case over {pcoin, nzi, value, mint, donation <hex>, try_pcoin, try_nzi <n>}; integers boundary-weighted "
